@@ -1,5 +1,6 @@
 import MobiusModel.Session
 import MobiusModel.LoginHistory
+import MobiusModel.SetUserPw
 import MobiusModel.BanReload
 import MobiusModel.Generated.Consts
 import MobiusModel.Generated.LockShape
@@ -316,5 +317,61 @@ example : BanReload.run false ⟨⟨[([49], none)]⟩, ⟨[([49], none)]⟩, .id
     [.loadLock, .check [49] 5, .loadRead, .loadUnlock, .check [49] 5] =
       some (⟨⟨[([49], none)]⟩, ⟨[([49], none)]⟩, .idle⟩, [⟨[49], 5, false⟩, ⟨[49], 5, true⟩]) :=
   (BanReload.unlocked_clear_admits [49] 5).2
+
+-- ---------------------------------------------------------------- wave e: the single-account editor (TranSetUser) before the login
+
+/-- **Set-user password clause**: an acknowledged `HandleSetUser` on an existing account with password
+    field `p` other than the one-byte marker stores `p` — for all `p`, including the empty field and
+    every `p` whose first wire byte is 0 (clear text beginning with 0xFF). -/
+theorem setUser_password_clause (hash : Bytes → Bytes) (fs : List Field) (t : LoginHistory.Table) (h p : Bytes)
+    (hex : t (LoginHistory.setUserLogin fs) = some h) (hp : LoginHistory.getF 106 fs = some p) (hp0 : p ≠ [0]) :
+    (LoginHistory.applySetUser hash fs t).2 = true ∧
+    (LoginHistory.applySetUser hash fs t).1 (LoginHistory.setUserLogin fs) = some (hash p) :=
+  LoginHistory.setUser_sets_password hash fs t h p hex hp hp0
+
+/-- The marker (exactly `[0]`) leaves the stored hash; an absent field stores the empty password. -/
+theorem setUser_marker_and_absent (hash : Bytes → Bytes) (fs : List Field) (t : LoginHistory.Table) (h : Bytes)
+    (hex : t (LoginHistory.setUserLogin fs) = some h) :
+    (LoginHistory.getF 106 fs = some [0] → (LoginHistory.applySetUser hash fs t).1 (LoginHistory.setUserLogin fs) = some h) ∧
+    (LoginHistory.getF 106 fs = none → (LoginHistory.applySetUser hash fs t).1 (LoginHistory.setUserLogin fs) = some (hash [])) :=
+  ⟨fun hp => (LoginHistory.setUser_marker_keeps hash fs t h hex hp).2,
+   fun hp => (LoginHistory.setUser_absent_clears hash fs t h hex hp).2⟩
+
+/-- **Logged in iff the password verifies against what the LAST edit set**, over every history of
+    set-user and update-user requests: the last request naming the login is a set-user with password
+    field `p ≠ [0]` ⇒ the gate's decision is `verify (hash p) presented`. -/
+theorem login_after_setUser_history {W O : Type} (env : Session.Env W O) (hash : Bytes → Bytes)
+    (pre post : List LoginHistory.Edit) (fs : List Field) (tr : Transaction) (h p : Bytes)
+    (hl : LoginHistory.setUserLogin fs = loginOf tr)
+    (hex : (LoginHistory.applyEdits hash pre env.accts).1 (loginOf tr) = some h)
+    (hp : LoginHistory.getF 106 fs = some p) (hp0 : p ≠ [0])
+    (hpost : ∀ x ∈ post, ¬ x.touches (loginOf tr)) :
+    Session.authenticate (LoginHistory.envAfterEdits env hash (pre ++ .setUser fs :: post)) tr = env.verify (hash p) (pwOf tr) :=
+  LoginHistory.authenticate_after_setUser env hash pre post fs tr h p hl hex hp hp0 hpost
+
+/-- … with the marker: `verify` against the hash held before that request. -/
+theorem login_after_setUser_marker_history {W O : Type} (env : Session.Env W O) (hash : Bytes → Bytes)
+    (pre post : List LoginHistory.Edit) (fs : List Field) (tr : Transaction) (h : Bytes)
+    (hl : LoginHistory.setUserLogin fs = loginOf tr)
+    (hex : (LoginHistory.applyEdits hash pre env.accts).1 (loginOf tr) = some h)
+    (hp : LoginHistory.getF 106 fs = some [0])
+    (hpost : ∀ x ∈ post, ¬ x.touches (loginOf tr)) :
+    Session.authenticate (LoginHistory.envAfterEdits env hash (pre ++ .setUser fs :: post)) tr = env.verify h (pwOf tr) :=
+  LoginHistory.authenticate_after_setUser_marker env hash pre post fs tr h hl hex hp hpost
+
+/-- In a history of requests the last one naming a login decides its entry. -/
+theorem history_last_edit_decides (hash : Bytes → Bytes) (pre post : List LoginHistory.Edit) (e : LoginHistory.Edit)
+    (t : LoginHistory.Table) (l : Bytes) (hpost : ∀ x ∈ post, ¬ x.touches l) :
+    (LoginHistory.applyEdits hash (pre ++ e :: post) t).1 l = (LoginHistory.applyEdit hash e (LoginHistory.applyEdits hash pre t).1).1 l :=
+  LoginHistory.history_last_edit_decides hash pre post e t l hpost
+
+-- non-vacuity: "ab" gets the password with wire bytes [0, 158] (clear text 0xFF 'a'): stored as such; then the marker keeps it
+def demoSetUser : List Field := [⟨105, obfuscate [97, 98]⟩, ⟨102, [65]⟩, ⟨110, []⟩, ⟨106, [0, 158]⟩]
+def demoSetUserKeep : List Field := [⟨106, [0]⟩, ⟨105, obfuscate [97, 98]⟩, ⟨102, [65]⟩, ⟨110, []⟩]
+example : (LoginHistory.applyEdits (fun p => 1 :: p) [.setUser demoSetUser, .setUser demoSetUserKeep, .batch demoBatch.tail] demoTable).2 = [true, true, true] ∧
+    (LoginHistory.applyEdits (fun p => 1 :: p) [.setUser demoSetUser, .setUser demoSetUserKeep, .batch demoBatch.tail] demoTable).1 [97, 98] = some [1, 0, 158] := by decide
+example : LoginHistory.setUserLogin demoSetUser = [97, 98] ∧ LoginHistory.getF 106 demoSetUser = some [0, 158] ∧ ([0, 158] : Bytes) ≠ [0] := by decide
+example : ¬ (LoginHistory.Edit.batch demoBatch.tail).touches [97, 98] := by
+  simp [LoginHistory.Edit.touches, demoBatch, LoginHistory.touches, LoginHistory.renameSrc, LoginHistory.getF, obfuscate]
 
 end Mobius.C04
